@@ -33,13 +33,14 @@ ASSUMPTIONS = [
 BOUNDS = {
     "quick": "four prefixes (computed-key reads l[abs(b)%2]; the list l defined as a whole with readers inside) followed by <=2 operations over {a,b,c,l0,l1}; histories of 5 operations over {a,b,c} with a reduced operation set (value / 2 expression shapes / unregister); histories of <=3 operations over {a,b,n.x,l0} (one member per nested container) and <=3 over {n.x,n.y,n.z} (siblings); "
              "inductive step: every set of <=2 definitions over {a,b,n.x,l0,l1} registered in every order, then one arbitrary operation; "
+             "plain-number mode: histories of 3 value-type operations (value / += / whole-list replacement) whose values are the Python ints 1 / 2 (engine decisions) on 3 managers; "
              "re-definition sequences: every sequence of 3 definitions over {a,b,c} (3 shapes per target) in which a target is defined again, then one arbitrary operation, under every iteration order of the start set; "
              "chains/fans of 1200..3000 tasks with symbolic head (pure build)",
     "thorough": "the 5-operation histories on the compiled build; histories <=4 over {a,b,n.x,l0}, <=3 over {a,b,c,n.x,l0,l1} and {a,b,n.x,n.y,n.z}; inductive step with <=3 definitions; "
                 "chains/fans up to 5000 tasks; both builds",
 }
 OUTSIDE = "longer histories (covered only through the inductive step + C03 history independence), floats, more than 6 locations"
-REQUIRED_CLASSES = ["step_checked", "inplace_on_expr", "unregister", "chain", "redefinition_sequence"]
+REQUIRED_CLASSES = ["step_checked", "inplace_on_expr", "unregister", "chain", "redefinition_sequence", "plain_number_values"]
 SIGNATURES = {
     "false_cycle": lambda cj, case: bool((cj.get("detail") or {}).get("false_cycle_through_loc")),
 }
@@ -106,8 +107,15 @@ class State:
         self.hist = []
         self.nv = 0
 
+    plain = False
+
     def fresh(self):
         self.nv += 1
+        if self.plain:
+            # plain-number mode: the assigned value is a Python int (1 or 2, an engine decision), so that code
+            # gated on concrete number types (isinstance(value, (int, float))) and on "the same number as last
+            # time" runs; container contents and definitions stay symbolic
+            return 1 + self.ex.choose(2)
         return self.ex.int(f"v{self.nv}")
 
     def apply(self, op):
@@ -217,6 +225,9 @@ EXPECTED_EXC = ()
 
 def run_history(ex, case):
     st = State(ex, case["build"])
+    st.plain = bool(case.get("plain"))
+    if st.plain:
+        ex.notes["plain_number_values"] = ex.notes.get("plain_number_values", 0) + 1
     locs = case["locs"]
     for op in case.get("prefix", []):
         st.apply(_tup(op))
@@ -224,6 +235,8 @@ def run_history(ex, case):
         return
     for k in range(case["K"]):
         ops = list_ops_reduced(st.defs, locs) if case.get("reduced") else list_ops(st.defs, locs, case.get("rich", False))
+        if case.get("value_ops_only"):
+            ops = [o for o in ops if o[0] in ("val", "replace", "iadd", "same")]
         if "l" in st.defs:
             # excluded by the property: a container that is overwritten as a whole holding an expression-defined member
             ops = [o for o in ops if not (o[1] in ("l0", "l1") and o[0] in ("expr", "isubref", "iadd", "val")) and o[0] != "replace"]
@@ -382,6 +395,19 @@ def _inductive_cases(build, locs, ndefs):
     return out
 
 
+def _plain_cases(build, K):
+    """value-type operations (value / += value / whole-list replacement / the object it holds) with plain
+    Python numbers 1 / 2 as values, on managers whose definitions read the locations that are assigned"""
+    out = []
+    locs = ["a", "l0", "l1", "n.x"]
+    for pf in ([["expr", "b", ["mul", ["loc", "l0"], ["const", 2]]]],
+               [["expr", "b", ["add", ["loc", "l0"], ["loc", "l1"]]], ["expr", "c", ["neg", ["loc", "a"]]]],
+               [["expr", "b", ["add", ["loc", "n.x"], ["loc", "a"]]], ["expr", "c", ["mul", ["loc", "b"], ["const", 2]]]]):
+        for first in range(10):
+            out.append({"mode": "history", "build": build, "locs": locs, "K": K, "first": first, "prefix": pf, "plain": True, "value_ops_only": True})
+    return out
+
+
 PREFIXES = [
     [["expr", "a", ["lidx", ["mod", ["abs", ["loc", "b"]], ["const", 2]]]]],
     [["expr", "c", ["add", ["lidx", ["mod", ["abs", ["loc", "b"]], ["const", 2]]], ["loc", "a"]]]],
@@ -409,6 +435,7 @@ def cases(tier):
                 cs.append(dict(c, prefix=pf))
         cs += _inductive_cases("pure", ["a", "b", "n.x", "l0", "l1"], 2)
         cs += _redef_cases("pure", ["a", "b", "c"], 3)
+        cs += _plain_cases("pure", 3)
         cs += [{"mode": "chain", "build": "pure", "shape": "chain", "order": "fwd", "n": 3000},
                {"mode": "chain", "build": "pure", "shape": "chain", "order": "rev", "n": 1200},
                {"mode": "chain", "build": "pure", "shape": "fan", "order": "fwd", "n": 3000}]
